@@ -80,6 +80,10 @@ Sweep == [k \in 1..1200 |-> (k - 400) * 2678400 + ((k * 7919) % 86400)]
 \* thorough: every string of length 0..4 over "a", "," and " "
 RECURSIVE Words(_)
 Words(n) == IF n = 0 THEN {<<>>} ELSE LET w == Words(n - 1) IN w \cup {Append(x, c) : x \in w, c \in {97, 44, 32}}
+\* spellings a number parser with "automatic base" or digit separators would read differently: leading zeros,
+\* 0x / 0b / 0o prefixes, underscores            010  0755  08  09  0x1f  0X1F  1_000  0b101  0o17  -07  00  -0  0x  0_1  1e3
+NumStrs == << <<48,49,48>>, <<48,55,53,53>>, <<48,56>>, <<48,57>>, <<48,120,49,102>>, <<48,88,49,70>>, <<49,95,48,48,48>>, <<48,98,49,48,49>>,
+              <<48,111,49,55>>, <<45,48,55>>, <<48,48>>, <<45,48>>, <<48,120>>, <<48,95,49>>, <<49,101,51>> >>
 TimeNames == <<"hour", "minute", "seconds", "day", "month", "year", "weekday">>
 
 \* the time built-ins take an integer; anything else, or a wrong count, gives null
@@ -150,6 +154,8 @@ Next ==
      \/ /\ row.k = "cv0"
         /\ \/ \E i \in 1..NV : row' = CallRow("convert", row.name, <<Vals[i]>>)
            \/ \E i \in 1..Len(Strs) : row' = CallRow("convert", row.name, <<Strs[i]>>)
+           \/ /\ row.name \in {"int", "float", "string", "len"}
+              /\ \E i \in 1..Len(NumStrs) : row' = CallRow("convert", row.name, <<S(NumStrs[i])>>)
 
 Spec == Init /\ [][Next]_vars
 
